@@ -74,10 +74,15 @@ func genC07(r *h.Rng, tier string, idx int) *h.Plan {
 		fields, _ := expiryFields(r, at, delta)
 		if id == "k1" || r.P(1, 6) {
 			fields = map[string]interface{}{} // control: never expires
-			if r.Bool() {
+			switch r.Intn(4) {
+			case 0, 1:
 				// the documented spelling of "no expiration" (what a stored
 				// non-expiring rule serialises to)
 				fields = map[string]interface{}{"expires": float64(0)}
+			case 2:
+				// "for ever" as a very long ttl in seconds, or as a duration: an expiry
+				// instant centuries away, not one that has wrapped around
+				fields = map[string]interface{}{"ttl": r.PickAny([]interface{}{9999999999.0, 1e10, 2e10, 3e10, "2000000h"})}
 			}
 		} else if delta > 0 {
 			exps = append(exps, (at + delta).Truncate(time.Second))
